@@ -1056,6 +1056,18 @@ class Interp:
             return recv[1]
         if m == "unwrap_or" and recv[0] == "none":
             return args[0]
+        if m in ("and_then", "map", "map_or", "unwrap_or_else", "or_else", "filter") and args and args[-1][0] == "closure" and \
+                e["recv"]["ty"].lstrip("&").startswith("std::option::Option<"):
+            clo = args[-1]
+            cenv = dict(clo[2])
+            for p_ in clo[1]["params"]:
+                self.bind(p_, ("payload", recv, "Some", 0), cenv)
+            try:
+                t = self.exec_expr_tree(clo[1]["body"], cenv)
+                bodyv = self.collapse_value(t)
+            except Unanalysable:
+                bodyv = ("?",)
+            return ("mcall", sname, recv, tuple(self.opaque_arg(a) for a in args[:-1]) + (("lambdav", bodyv),))
         if m in ("map", "sum", "filter_map", "filter") and args and args[0][0] == "closure":
             return ("mcall", sname, recv, (self.closure_summary(args[0], recv),))
         if name in self.hir and self.is_producer(name):
